@@ -161,6 +161,9 @@ class Sim(skel.Skel):
         self.tid = None
         self.cur_e = None
         self.plain = {}
+        self.this_obj = None         # while a member function of a small struct runs: key of the object it runs on ...
+        self.this_rec = ()           # ... and the names of its type
+        self.tmp = 0
 
     def arith(self, op, a, b, e):
         r = skel.Skel.arith(self, op, a, b, e)
@@ -172,9 +175,19 @@ class Sim(skel.Skel):
         n = node if node is not None and node.get("l") is not None else self.cur
         return self.fn.nloc(n) if n is not None else self.fn.loc
 
-    # ---- small structs: a local / returned object of a plain record type (no bases, no user-declared members, scalar
-    # fields) is the value ("rec", type, ((field, value), ...)); obj.f is read from and written into that value.  A field
-    # that was never written is None (data) like an uninitialised local.
+    # ---- small structs: a local / returned object of a plain record type (no bases, scalar fields, no user-declared
+    # members other than ordinary member functions whose bodies are at hand) is the value ("rec", type, ((field, value), ...));
+    # obj.f is read from and written into that value, obj.m(...) runs the body of m on that value.  A field that was never
+    # written is None (data) like an uninitialised local.
+    def plain_methods(self, r):
+        """the user-declared members of the record are ordinary member functions that can be evaluated: no constructor,
+        destructor or operator (they would change what building / copying / assigning the object means), nothing virtual"""
+        for m in r.get("methods") or ():
+            f = self.tu.by_did.get(m.get("did"))
+            if m.get("virtual") or f is None or f.kind != "method" or f.body is None or (f.name or "").startswith("operator"):
+                return False
+        return True
+
     def plain_record(self, ty):
         """names of the fields if ty is such a record, else None"""
         t = ir._bare(ty)
@@ -182,11 +195,90 @@ class Sim(skel.Skel):
             fs = None
             rs = [r for r in self.tu.records if t in (r.get("full"), r.get("qname"))] if self.tu is not None and t else []
             shapes = {tuple((f.get("name"), f.get("ty")) for f in r.get("fields") or ()) for r in rs}    # a struct local to a template: one record per instance
-            if rs and len(shapes) == 1 and not any(r.get("bases") or r.get("methods") for r in rs) and rs[0].get("fields") and \
+            if rs and len(shapes) == 1 and not any(r.get("bases") for r in rs) and rs[0].get("fields") and \
                     all(_scalar(f.get("ty") or "") and f.get("name") for f in rs[0]["fields"]):
-                fs = tuple(f["name"] for f in rs[0]["fields"])
+                with_methods = any(r.get("methods") for r in rs)
+                # a member function of the struct is evaluated outside the lock-state dataflow of the class under test: it must
+                # not be able to reach that class's state, so a struct with member functions carries numbers only, no pointers
+                if not with_methods or (len(rs) == 1 and self.plain_methods(rs[0]) and
+                                        not any("*" in (f.get("ty") or "") or "&" in (f.get("ty") or "") for f in rs[0]["fields"])):
+                    fs = tuple(f["name"] for f in rs[0]["fields"])
             self.plain[t] = fs
         return self.plain[t]
+
+    def this_member(self, x):
+        """x is `this->f` / `f` inside a member function of a small struct that is being evaluated: the key of that field of
+        the object the function runs on, else None"""
+        if self.this_obj is None or x is None or x["k"] != "MemberExpr" or not match.this_field(x):
+            return None
+        if ir._bare(x.get("owner")) not in self.this_rec:
+            raise dtable.Undecidable("%s: member %s of another class is used inside a member function of a small struct" % (self.here(x), x.get("member")))
+        return ("sub", self.this_obj, x["member"])
+
+    def record_call(self, x):
+        """obj.m(args) / p->m(args) where obj is a small struct held as a value: runs the body of m on that object"""
+        c = x["callee"]
+        if x["k"] == "CXXOperatorCallExpr" or not x.get("member_call") or self.tu is None or self.depth >= 5:
+            return NotImplemented
+        args = [a for a in kids(x) if a is not None and a["k"] != "DefaultArg"]
+        if not args:
+            return NotImplemented
+        obj = strip_casts(args[0])
+        while obj is not None and obj["k"] in ("ParenExpr", "MaterializeTemporaryExpr", "CXXBindTemporaryExpr", "ExprWithCleanups") and kids(obj):
+            obj = strip_casts(kids(obj)[0])
+        if obj is None or obj["k"] == "This":
+            return NotImplemented
+        callee = self.tu.by_did.get(c.get("did"))
+        if callee is None or callee.body is None or callee.kind != "method" or callee.d.get("static") or callee.did == self.fn.did:
+            return NotImplemented
+        rec = ir._bare(c.get("record"))
+        if not rec or self.plain_record(rec) is None or len(args) - 1 != len(callee.params):
+            return NotImplemented
+        recs = tuple({n for r in self.tu.records if rec in (r.get("full"), r.get("qname")) for n in (r.get("full"), r.get("qname")) if n})
+        oty = (obj.get("ty") or "").rstrip()
+        if oty.endswith("*"):
+            p = self.ev(obj)
+            key = p[1] if isinstance(p, tuple) and len(p) == 2 and p[0] == "ptr" else None
+        elif ("callee" not in obj or match.index_parts(obj) or match.deref_of(obj)) and obj["k"] != "InitListExpr":
+            key = self.lvalue(obj)
+        else:                                # a temporary: helper().m()
+            v = self.ev(obj)
+            self.tmp += 1
+            key = ("tmp", self.tmp)
+            self.env[key] = v
+        if key is None or not _is_rec(self.load(key)) or self.load(key)[1] not in recs:
+            raise dtable.Undecidable("%s: call of %s() on an object that is not understood" % (self.here(x), c.get("name")))
+        saved_alias = dict(self.alias)
+        binds = []
+        for p, a in zip(callee.params, args[1:]):          # like engine/skel.py's inline(): references name the caller's objects
+            ty = (p.get("ty") or "").rstrip()
+            if ty.endswith("&") and not ty.endswith("&&") and "const" not in ty.split("<")[0]:
+                k = self.lvalue(a)
+                if k is None:
+                    raise dtable.Undecidable("%s: argument of %s() bound to a reference is not a named object" % (self.here(x), c.get("name")))
+                binds.append((p["did"], k, True))
+            elif ty.endswith("&") and self.lvalue(a) is not None:
+                binds.append((p["did"], self.lvalue(a), True))
+            else:
+                binds.append((p["did"], self.ev(a), False))
+        for did, v, is_alias in binds:
+            if is_alias:
+                self.alias[did] = v
+            else:
+                self.env[did] = v
+        saved = (self.fn, self.cur, self.this_obj, self.this_rec)
+        self.fn, self.this_obj, self.this_rec = callee, key, recs
+        self.depth += 1
+        try:
+            self.run(kids(callee.body))
+            ret = None
+        except skel.Return as r_:
+            ret = r_.v
+        finally:
+            self.fn, self.cur, self.this_obj, self.this_rec = saved
+            self.depth -= 1
+            self.alias = saved_alias
+        return ret
 
     def member_base(self, x):
         """obj of obj.f / p->f, unless the object is *this"""
@@ -201,6 +293,9 @@ class Sim(skel.Skel):
         x = strip_casts(e)
         while x is not None and x["k"] == "ParenExpr":
             x = strip_casts(kids(x)[0])
+        tk = self.this_member(x)
+        if tk is not None:
+            return tk
         b = self.member_base(x)
         if b is None:
             return skel.Skel.lvalue(self, e)
@@ -250,6 +345,13 @@ class Sim(skel.Skel):
             return self.ev(kids(x)[0])
         if x["k"] == "ImplicitValueInitExpr" and _scalar(x.get("ty") or ""):
             return False if ir._bare(x.get("ty")) == "bool" else 0
+        tk = self.this_member(x)
+        if tk is not None:
+            return self.load(tk)
+        if "callee" in x and x.get("member_call"):
+            r = self.record_call(x)
+            if r is not NotImplemented:
+                return r
         b = self.member_base(x)
         if b is not None:
             named = not x.get("arrow") and ("callee" not in b or match.index_parts(b) or match.deref_of(b)) and b["k"] != "InitListExpr"
